@@ -2,7 +2,7 @@
 
 Case = {"cfg": "graph"|"cg"|"ds", "two": bool, "init": [[s,p,o,c]…],
         "ops": [["add",w,s,p,o,c] | ["remove",w,s,p,o,c] (None = wildcard) | ["commit",w] | ["rollback",w]]}
-Terms are small integers (vocabulary below, falsy literals included); graph names 90…93.
+Terms are small integers (vocabulary below, falsy literals included); graph names 90…93 (93 = the name rdflib gives a graph requested as <>).
 Observation after every op: the quad set of the *underlying* Memory store.
 Property oracle (independent of Lean): snapshot at transaction begin / at commit.
 """
@@ -45,13 +45,16 @@ def _ids(cfg):
         gn[DEFAULT_G] = URIRef("urn:x-rdflib:default")
     else:
         gn[DEFAULT_G] = URIRef("http://e/default")
+    # a graph the caller asked to name by the relative IRI <>: whatever name rdflib gives it
+    # (a fresh blank node today); the property must hold for that graph like for any other
+    gn[93] = Graph(identifier=URIRef("")).identifier
     return gn
 
 
 def gen_case(rng, tier, i):
     cfg = rng.choice(["graph", "cg", "cg"])  # Dataset refuses a non-graph-aware store such as AuditableStore
     two = cfg != "graph" and rng.random() < 0.3
-    graphs = [DEFAULT_G] if cfg == "graph" else [90, 91, 92, DEFAULT_G]
+    graphs = [DEFAULT_G] if cfg == "graph" else [90, 91, 92, 93, DEFAULT_G]
     subs = list(SUBJ)
 
     def quad(ss):
